@@ -90,6 +90,7 @@ fn cmd_opt(m: &HashMap<String, String>) {
                 "edited" => suites::edited_suite(&mut rng, 7 * scale / chunks.max(1) * 2, 100, false),
                 "saveload" => suites::saveload_suite(&mut rng, 14 * scale / chunks.max(1) * 2),
                 "special" => suites::special_suite(&mut rng, 20 * scale / chunks.max(1) * 2),
+                "tiny" => suites::tiny_suite(&mut rng, 10 * scale / chunks.max(1) * 2),
                 "oor" => {
                     let mut r = suites::edited_suite(&mut rng, 7 * scale / chunks.max(1) * 2, 100, true);
                     r.extend(suites::oor_lj_suite(&mut rng, 14 * scale / chunks.max(1) * 2));
@@ -146,6 +147,11 @@ fn main() {
             m.get("seed").and_then(|s| s.parse().ok()).unwrap_or(1),
         ),
         "pairs-obs" => geom::pairs_obs(
+            m.get("out").expect("--out"),
+            m.get("tier").map(|t| t == "thorough").unwrap_or(false),
+            m.get("seed").and_then(|s| s.parse().ok()).unwrap_or(1),
+        ),
+        "pairs-many" => geom::pairs_many(
             m.get("out").expect("--out"),
             m.get("tier").map(|t| t == "thorough").unwrap_or(false),
             m.get("seed").and_then(|s| s.parse().ok()).unwrap_or(1),
